@@ -161,6 +161,24 @@ pub fn run(cx: &mut Ctx) {
     }
     cx.exhaustive_blocks.push(format!("group_by_key on all keyed inputs of length <= {maxlen} over 3 keys, with pairwise distinct values and with duplicate values (position / 2), x seq + par 1..6 ({} key sequences); keys-unique / flatten / no-empty-group judged on every real output", inputs.len()));
 
+    // round 5 — a LEGAL `Hash` far coarser than `Eq` (`pipe::COARSE_HASH`: three bits of `to_int()`): 24 distinct keys
+    // share 8 hashes. "One pair per distinct key … none taken from another key" must not depend on hashes separating keys.
+    {
+        crate::pipe::COARSE_HASH.store(true, std::sync::atomic::Ordering::SeqCst);
+        for _ in 0..cx.budget(60, 600) {
+            let m = cx.rng.below(70);
+            let src: Vec<V> = (0..m).map(|i| V::pair(V::I(cx.rng.below(24) as i64), V::I(i as i64))).collect();
+            let p = Prog { shape: Shape::KV, src: src.clone(), steps: vec![Step::Gbk] };
+            let parts = 2 + cx.rng.below(6);
+            cx.count("gbk:coarse-hash");
+            let outs = crate::pipe_x::check_prog_x(cx, &p, &xm(&[Mode::Seq, Mode::Par(parts)]), &xo);
+            let base = cx.reqs.len() - outs.len();
+            for (j, out) in outs.iter().enumerate() { if let Outcome::Rows(rows) = out { judge_groups(cx, base + j, rows, &src, "coarse hash"); } }
+        }
+        crate::pipe::COARSE_HASH.store(false, std::sync::atomic::Ordering::SeqCst);
+        cx.notes.push("coarse-hash block: group_by_key with a key type whose Hash is legal but collides for most distinct keys (24 keys, 8 hash values)".into());
+    }
+
     // group_by_key inside the LEFT and inside the RIGHT join side (exhaustive small scope), wide plans (65..256
     // partitions, also inside join sides), one 12000-row x 5000-key case
     {
